@@ -6,7 +6,7 @@ CONSTANTS
   MaxC = 2
   Kinds = {"axfr", "ixfr1", "fallback"}
   MaxMsgs = 3
-  FaultKinds = {"none", "drop", "dup", "swap", "trunc", "csoa"}
+  FaultKinds = {"none", "drop", "dup", "swap", "trunc"}
   LaterQ = {FALSE}
 SPECIFICATION GenSpec
 INVARIANT EmitCase
